@@ -53,6 +53,8 @@ pub struct GenCfg {
     pub branch_pct: u64,
     /// percentage of indirect branches that target an address outside the function
     pub unknown_target_pct: u64,
+    /// percentage of non-entry blocks generated without successors
+    pub terminal_pct: u64,
     /// the last block has no out-edges (a reachable block without successors is likely)
     pub ensure_exit: bool,
 }
@@ -79,6 +81,7 @@ impl GenCfg {
             intrinsic_pct: 4,
             branch_pct: 4,
             unknown_target_pct: 10,
+            terminal_pct: 16,
             ensure_exit: false,
         }
     }
@@ -322,7 +325,7 @@ pub fn function(rng: &mut Rng, cfg: &GenCfg, address: u64) -> il::Function {
     for b in 0..nb {
         let k = if rng.below(100) < cfg.branchiness {
             if rng.chance(1, 4) { 3 } else { 2 }
-        } else if rng.chance(1, 6) && b > 0 {
+        } else if rng.below(100) < cfg.terminal_pct && b > 0 {
             0
         } else {
             1
